@@ -199,4 +199,10 @@ MUT = {
             self._unlock(fd)
         finally:
             os.close(fd)""", 'C13'),
+ 'c15_unfix_retention': ('aiuti/asyncio.py', "            batch_timeout=batch_timeout,\n            retention_timeout=retention_timeout,\n        )\n\n    batchers:", "            batch_timeout=batch_timeout,\n        )\n\n    batchers:", 'C15'),
+ 'c15_drop_batch_timeout': ('aiuti/asyncio.py', "            max_concurrent_batches=max_concurrent_batches,\n            batch_timeout=batch_timeout,\n            retention_timeout=retention_timeout,\n        )\n\n    batchers:", "            max_concurrent_batches=max_concurrent_batches,\n            retention_timeout=retention_timeout,\n        )\n\n    batchers:", 'C15'),
+ 'c15_buffer_timeout_default': ('aiuti/asyncio.py', "        return partial(buffer_until_timeout, timeout=timeout)  # type: ignore", "        return partial(buffer_until_timeout)  # type: ignore", 'C15'),
+ 'c15_cache_dropped': ('aiuti/asyncio.py', "            threadsafe_async_cache,\n            cache=cache,\n        )", "            threadsafe_async_cache,\n        )", 'C15'),
+ 'c15_shared_batcher': ('aiuti/asyncio.py', "            batcher = batchers[loop]\n        except KeyError:\n            batcher = batchers[loop] = AsyncBackgroundBatcher(", "            batcher = batchers[type(loop)]\n        except KeyError:\n            batcher = batchers[type(loop)] = AsyncBackgroundBatcher(", 'C15'),
+ 'c15_mbs_default_in_wrapper': ('aiuti/asyncio.py', "                cast(_BatchFunc[A_contra, R_co], func),\n                max_batch_size=max_batch_size,", "                cast(_BatchFunc[A_contra, R_co], func),\n                max_batch_size=256,", 'C15'),
 }
